@@ -141,3 +141,19 @@ theorem C07_source_automatic_levels_at_most_ten (initial maxZooms : Nat) (hi : 0
 
 end ZL
 
+
+/-- **The saturating window end (D25) is exact.** The writers compute the end of a zoom record's window as
+    `start.saturating_add(resolution)` (32 bits); the model adds natural numbers. For value ends below `u32::MAX` — every end the
+    format can hold but the very last coordinate — the bases added (`min windowEnd valueEnd`) and the "record complete" test
+    (`addEnd = windowEnd`) are the same either way, whatever the start and the resolution; at `valueEnd = u32::MAX` the bases added still
+    agree (the record is then closed one step earlier, at the end of the chromosome's last possible base). -/
+theorem C07_saturating_window_end_is_exact (start res valueEnd : Nat) (he : valueEnd ≤ 4294967295) :
+    min (min (start + res) 4294967295) valueEnd = min (start + res) valueEnd ∧
+    (valueEnd < 4294967295 →
+      (min (min (start + res) 4294967295) valueEnd = min (start + res) 4294967295 ↔ min (start + res) valueEnd = start + res)) := by
+  constructor
+  · omega
+  · intro h; omega
+
+/-- non-vacuity: the reported D25 input — a record starting at 3355443200 at resolution 2684354560 — is beyond 32 bits unsaturated -/
+example : 3355443200 + 2684354560 > 4294967295 ∧ min (min (3355443200 + 2684354560) 4294967295) 3355443250 = 3355443250 := by decide
